@@ -1,0 +1,41 @@
+/*
+ * libOPNMIDI verification hooks (compiled in only with -DOPNMIDI_VERIF)
+ *
+ * Observation and substitution seams used by the external model-checking
+ * harness: a tap on every chip register write, a chip factory override and
+ * scheduler yield points. With the guard off this header defines only an
+ * empty OPN_VERIF_YIELD() macro.
+ */
+#ifndef OPNMIDI_VERIF_HPP
+#define OPNMIDI_VERIF_HPP
+
+#ifdef OPNMIDI_VERIF
+
+#include <stddef.h>
+#include <stdint.h>
+
+class OPNChipBase;
+
+struct OpnVerifHooks
+{
+    /* register write tap: synth = OPN2*, kind 0 = writeReg/writeRegI, 1 = writePan */
+    void (*reg)(void *synth, size_t chip, unsigned port, unsigned reg, unsigned value, int kind);
+    /* called at the end of OPN2::reset after the chips were re-created */
+    void (*chips_reset)(void *synth, unsigned numChips, int emulator, int family);
+    /* chip factory override; return NULL to get the regular chip */
+    OPNChipBase *(*make_chip)(void *synth, int emulator, int family, size_t index);
+    /* cooperative scheduler yield point */
+    void (*yield)(const char *tag);
+};
+
+extern struct OpnVerifHooks g_opn_verif;
+
+#define OPN_VERIF_YIELD(tag) do { if(g_opn_verif.yield) g_opn_verif.yield(tag); } while(0)
+
+#else
+
+#define OPN_VERIF_YIELD(tag) do {} while(0)
+
+#endif /* OPNMIDI_VERIF */
+
+#endif /* OPNMIDI_VERIF_HPP */
